@@ -496,9 +496,12 @@ class CGenerator:
             s += " ".join(n.storage) + " "
         if n.align:
             s += " ".join(self.visit(a) for a in n.align) + " "
-        if n.quals and isinstance(n.type, (c_ast.Struct, c_ast.Union, c_ast.Enum)):
-            # A declaration that only declares a tag has no TypeDecl to carry
-            # its qualifiers.
+        if n.quals and isinstance(
+            n.type, (c_ast.Struct, c_ast.Union, c_ast.Enum, c_ast.IdentifierType)
+        ):
+            # A declaration without declarator (a tag-only declaration, or a
+            # struct member such as "int const;") has no TypeDecl to carry its
+            # qualifiers.
             s += " ".join(n.quals) + " "
         s += self._generate_type(n.type)
         return s
